@@ -26,6 +26,7 @@ type scenarioEnv struct {
 	root   string // scratch directory standing for VB
 	kernel *simKernel
 	cfg    *config.ConfigType
+	prune  map[string]bool // real mountpoints: listed, not descended into (binary-level runs)
 }
 
 func (e *scenarioEnv) virt(p string) string { // virtual -> real
@@ -94,6 +95,9 @@ func (e *scenarioEnv) listTree() []interface{} {
 			ents = append(ents, ent{vp, []interface{}{hx(vp), "l", hx(e.unvirtAll(t))}})
 		case info.IsDir():
 			ents = append(ents, ent{vp, []interface{}{hx(vp), "d"}})
+			if e.prune[p] {
+				return filepath.SkipDir
+			}
 		default:
 			base := filepath.Base(p)
 			if strings.HasPrefix(base, "layerconfig") || strings.HasPrefix(base, "data") || strings.HasSuffix(base, ".skel") {
